@@ -703,10 +703,14 @@ class Fn:
             self.ctx.append(("for", d, st))
             self.run(st.body)
             self.ctx.pop()
+        if st.orelse:
+            self.run(st.orelse)     # the else clause runs after the loop, in the enclosing context
 
     def st_While(self, st):
         self.ev(st.test)
         self.run(st.body)
+        if st.orelse:
+            self.run(st.orelse)
 
     def st_With(self, st):
         self.run(st.body)
